@@ -998,6 +998,7 @@ def _gen_package(rnd, n_parts):
 
     # content types: Default for the first type seen per extension (as spelled), Override for the rest
     defaults, overrides = {"rels": "application/vnd.openxmlformats-package.relationships+xml"}, {}
+    flip_case = rnd.random() < 0.4  # Override part names spelled in another case than the member (names are matched case-insensitively)
     for n in names:
         e = n.rsplit(".", 1)[1]
         if e.lower() not in {k.lower() for k in defaults} and rnd.random() < 0.7:
@@ -1005,7 +1006,7 @@ def _gen_package(rnd, n_parts):
         elif {k.lower(): v for k, v in defaults.items()}.get(e.lower()) != ctype[n] or rnd.random() < 0.3:
             overrides[n] = ctype[n]
     ct = ('<?xml version="1.0" encoding="UTF-8" standalone="yes"?>\n<Types xmlns="http://schemas.openxmlformats.org/package/2006/content-types">%s%s</Types>'
-          % ("".join('<Default Extension="%s" ContentType="%s"/>' % kv for kv in defaults.items()), "".join('<Override PartName="%s" ContentType="%s"/>' % kv for kv in overrides.items()))).encode()
+          % ("".join('<Default Extension="%s" ContentType="%s"/>' % kv for kv in defaults.items()), "".join('<Override PartName="%s" ContentType="%s"/>' % ((k.swapcase() if flip_case and rnd.random() < 0.5 else k), v) for k, v in overrides.items()))).encode()
     buf = io.BytesIO()
     with zipfile.ZipFile(buf, "w") as z:
         z.writestr("[Content_Types].xml", ct)
